@@ -11,6 +11,20 @@ pub fn check(name: &str, case: &Value, v: &Violation) -> bool {
         "union_branches_share_prop_with_different_inline_schema" => union_branches_share_prop(case),
         "union_mixes_open_and_closed_variants" => union_mixes_open_closed(case),
         "union_of_open_single_property_objects" => union_open_single_prop(case),
+        "optional_property_closes_reference_cycle" => optional_cyclic(case),
+        "boolean_enum" => any_schema_node(case, &mut |o| o.get("type") == Some(&Value::String("boolean".into())) && o.contains_key("enum")),
+        "closed_tag_only_variant" => any_schema_node(case, &mut |o| {
+            o.get("oneOf").and_then(|b| b.as_array()).map(|bs| bs.iter().any(|b| {
+                b.get("additionalProperties") == Some(&Value::Bool(false))
+                    && b.get("properties").and_then(|p| p.as_object()).map(|p| p.len() == 1 && p.values().all(|s| s.get("enum").and_then(|e| e.as_array()).map(|e| e.len() == 1).unwrap_or(false))).unwrap_or(false)
+            })).unwrap_or(false)
+        }),
+        "closed_adjacent_wrapper" => any_schema_node(case, &mut |o| {
+            o.get("oneOf").and_then(|b| b.as_array()).map(|bs| bs.iter().any(|b| {
+                b.get("additionalProperties") == Some(&Value::Bool(false))
+                    && b.get("properties").and_then(|p| p.as_object()).map(|p| p.len() <= 2 && p.values().any(|s| s.get("enum").and_then(|e| e.as_array()).map(|e| e.len() == 1).unwrap_or(false))).unwrap_or(false)
+            })).unwrap_or(false)
+        }),
         _ => false,
     }
 }
@@ -110,4 +124,12 @@ fn union_open_single_prop(case: &Value) -> bool {
             np == 1 && nr == 1 && bo.get("additionalProperties") != Some(&Value::Bool(false))
         })
     })
+}
+
+/// KF-004: a non-required property whose schema is a bare `$ref` closing a cycle.
+fn optional_cyclic(case: &Value) -> bool {
+    case.get("history")
+        .and_then(|h| h.as_array())
+        .map(|steps| steps.iter().any(|st| st.get("doc").map(|d| !crate::gen::schema::optional_cyclic_refs(d).is_empty()).unwrap_or(false)))
+        .unwrap_or(false)
 }
